@@ -232,7 +232,22 @@ pub fn gen_case_line(sub: u64, big_ok: bool) -> Case {
     Case { data, pattern, cfg }
 }
 
+thread_local!(static MATCHERS: std::cell::RefCell<std::collections::HashMap<String, Result<RegexMatcher, String>>> = Default::default());
+
+/// Matchers are cached per thread: compiling a regex costs far more than a
+/// simulated search of a small input.
 pub fn build_matcher(case: &Case) -> Result<RegexMatcher, String> {
+    let key = format!("{}|{}|{}|{}", case.pattern, case.cfg.multi_line, case.cfg.term.name(), case.cfg.bin != Bin::None);
+    MATCHERS.with(|m| {
+        let mut m = m.borrow_mut();
+        if m.len() > 4096 {
+            m.clear();
+        }
+        m.entry(key).or_insert_with(|| build_matcher_uncached(case)).clone()
+    })
+}
+
+fn build_matcher_uncached(case: &Case) -> Result<RegexMatcher, String> {
     let mut b = RegexMatcherBuilder::new();
     b.multi_line(true).octal(false);
     let cfg = &case.cfg;
